@@ -139,7 +139,7 @@ var metas = map[string]propMeta{
 	"C01": {quickRuns: 6000, thoroughSec: 600, batch: 500, level: "exploration"},
 	"C02": {quickRuns: 4000, thoroughSec: 600, batch: 400, level: "fault_enumeration"},
 	"C05": {quickRuns: 6000, thoroughSec: 600, batch: 500, level: "exploration"},
-	"C06": {quickRuns: 3000, thoroughSec: 600, batch: 300, level: "fault_enumeration"},
+	"C06": {node: true, quickRuns: 3000, thoroughSec: 600, batch: 300, level: "fault_enumeration"},
 	"C07": {quickRuns: 4000, thoroughSec: 600, batch: 400, level: "exploration"},
 	"C08": {node: true, quickRuns: 2500, thoroughSec: 900, batch: 250, level: "exploration"},
 	"C09": {node: true, quickRuns: 1000, thoroughSec: 900, batch: 150, level: "exploration"},
@@ -424,6 +424,10 @@ func shrink(bi *buildInfo, prop string, seed uint64, oracle string, choices []ui
 	tried := 0
 	best := append([]uint32(nil), choices...)
 	var bestOut *runOut
+	if o, err := pool[0].run(cand{Seed: seed, Choices: best}); err == nil && hasOracle(o, oracle) {
+		bestOut = o
+		best = append([]uint32(nil), o.Choices...)
+	}
 	perCand := 20 * time.Second
 
 	// try evaluates candidates in parallel and returns the first (lowest index) that keeps the oracle
@@ -486,6 +490,67 @@ func shrink(bi *buildInfo, prop string, seed uint64, oracle string, choices []ui
 			break
 		}
 	}
+	// 0b. kind-aware simplification: all select orders in source order, all map iterations in
+	// sorted order, no stalls, all random bytes zero, always the lowest runnable task
+	kindPass := func() {
+		if bestOut == nil || len(bestOut.Kinds) != len(best) {
+			return
+		}
+		kinds := bestOut.Kinds
+		var cands [][]uint32
+		for _, k := range []byte{'l', 'm', 't', 'r', 's'} {
+			c := append([]uint32(nil), best...)
+			changed := false
+			for i := range c {
+				if kinds[i] == k && c[i] != 0 {
+					c[i] = 0
+					changed = true
+				}
+			}
+			if changed {
+				cands = append(cands, c)
+			}
+		}
+		// halves of the scheduling choices
+		for _, part := range [][2]int{{0, 2}, {1, 2}, {1, 4}, {3, 4}} {
+			c := append([]uint32(nil), best...)
+			lo, hi := len(c)*part[0]/part[1], len(c)
+			if part[0] == 0 {
+				lo, hi = 0, len(c)/part[1]
+			}
+			changed := false
+			for i := lo; i < hi; i++ {
+				if kinds[i] == 's' && c[i] != 0 {
+					c[i] = 0
+					changed = true
+				}
+			}
+			if changed {
+				cands = append(cands, c)
+			}
+		}
+		for try(cands) {
+			if bestOut == nil || len(bestOut.Kinds) != len(best) {
+				return
+			}
+			kinds = bestOut.Kinds
+			cands = cands[:0]
+			for _, k := range []byte{'l', 'm', 't', 'r', 's'} {
+				c := append([]uint32(nil), best...)
+				changed := false
+				for i := range c {
+					if kinds[i] == k && c[i] != 0 {
+						c[i] = 0
+						changed = true
+					}
+				}
+				if changed {
+					cands = append(cands, c)
+				}
+			}
+		}
+	}
+	kindPass()
 	improved := true
 	for improved && time.Now().Before(deadline) && tried < maxCand {
 		improved = false
